@@ -397,6 +397,10 @@ def gen_b(tier, seed):
                         op=op, phase='before', val=vname, bad=True)
                     add('before_any', base + ['arm 0 %s -1' % vtxt, 'x%s %d' % (op, key)],
                         op=op, phase='before', val=vname, bad=True)
+                    # a hash function that misbehaves intermittently: only every second call answers out of range
+                    # (an operation that consults the hash once returns normally; one that consults it again must abort)
+                    add('before_flip', base + ['every 2', 'arm 0 %s -1' % vtxt, 'x%s %d' % (op, key)],
+                        op=op, phase='before', val=vname, bad=True, maybe_done=True)
                     # after a completed rehash (the new function/geometry became the current one)
                     add('after', base + ['resize %d' % (n0 + 3), 'rehash', 'arm %d %s %d' % (n0 + 3, vtxt, key),
                                          'x%s %d' % (op, key)], op=op, phase='after-rehash', val=vname, bad=True)
@@ -408,6 +412,8 @@ def gen_b(tier, seed):
                             # out of range under the current (old) geometry
                             add('pend_cur', pend + ['arm %d %s %d' % (n0, vtxt, key), 'x%s %d' % (op, key)],
                                 op=op, phase='pending-%s:old-geometry' % kind, val=vname, bad=True, pending=True)
+                            add('pend_flip', pend + ['every 2', 'arm 0 %s -1' % vtxt, 'x%s %d' % (op, key)],
+                                op=op, phase='pending-%s:intermittent' % kind, val=vname, bad=True, pending=True, maybe_done=True)
                             # out of range under the pending (new) geometry
                             add('pend_new', pend + ['arm %d %s %d' % (n1, vtxt, key), 'x%s %d' % (op, key)],
                                 op=op, phase='pending-%s:new-geometry' % kind, val=vname, bad=True, pending=True)
